@@ -16,7 +16,7 @@ import types
 from typing import List
 
 from pyanalyze import node_visitor
-from pyanalyze.node_visitor import IGNORE_COMMENT, BaseNodeVisitor, Replacement, _FakeNode
+from pyanalyze.node_visitor import IGNORE_COMMENT, BaseNodeVisitor, Replacement, ReplacingNodeVisitor, _FakeNode
 
 from vf.engine import Case
 from vf.g import G, excluded, fin, skip
@@ -284,9 +284,79 @@ def h16_range(ind: int, tsel: int, before: int, after: bool) -> bool:
     return fin(got == want)
 
 
+# ------------------------------------------------------------------------------ H16d
+# The generic fix producers BaseNodeVisitor.replace_node / remove_node: the statement `x = <v>` is replaced by
+# `x = 9` (or removed) inside small programs where it shares its physical line(s) with other code.  Either no fix is
+# offered, or the fixed file is exactly the original program with only that statement changed.
+
+PROGRAMS = {
+    # {X} is the target statement
+    "alone": ["a = 0", "{X}", "b = 2"],
+    "after_colon": ["if a: {X}", "b = 2"],
+    "semi_first": ["{X}; b = 2", "c = 3"],
+    "semi_last": ["b = 2; {X}", "c = 3"],
+    "semi_mid": ["b = 2; {X}; c = 3"],
+    "comment": ["a = 0", "{X}  # note", "b = 2"],
+    "else_colon": ["if a:", "    b = 1", "else: {X}", "c = 3"],
+    "indented": ["if a:", "    {X}", "    b = 2"],
+}
+
+
+class RV(ReplacingNodeVisitor):
+    error_code_enum = EC
+
+
+def h16_replace(vsel: int, remove: bool) -> bool:
+    """
+    post: _
+    """
+    # small selectors only (the solver enumerates them); the text is concrete per path
+    if excluded(vsel=vsel, remove=remove):
+        return skip()
+    vals = ["1", "(1 +", "f(1)"]
+    v = vals[0]
+    for i in range(1, len(vals)):
+        if vsel == i:
+            v = vals[i]
+    if vsel < 0 or vsel >= len(vals):
+        return skip()
+    X = "x = " + v
+    if v == "(1 +":
+        X = "x = (1 + 2)"
+    src_lines = [l.format(X=X) for l in PROGRAMS[G.case["prog"]]]
+    src = "\n".join(src_lines) + "\n"
+    tree = ast.parse(src)
+    target = None
+    for node in ast.walk(tree):
+        if isinstance(node, ast.Assign) and isinstance(node.targets[0], ast.Name) and node.targets[0].id == "x":
+            target = node
+    vis = RV("f.py", src, tree, settings=None)
+    if remove:
+        rep = vis.remove_node(target.value, target)
+    else:
+        rep = vis.replace_node(target.value, ast.Constant(value=9), target)
+    if rep is None:
+        return fin(True, nontrivial=False)  # no fix offered
+    lines = vis._apply_changes_to_lines([rep], [l + "\n" for l in src_lines])
+    try:
+        got = ast.dump(ast.parse("".join(lines)))
+    except SyntaxError:
+        return fin(False)
+    want_src = "\n".join(l.format(X=("pass" if remove else "x = 9")) for l in PROGRAMS[G.case["prog"]]) + "\n"
+    want = ast.dump(ast.parse(want_src))
+    if remove:
+        # removing the only statement of a line leaves the line out: compare modulo `pass`
+        want_alt = ast.dump(ast.parse("\n".join(l for l in (l.format(X="") for l in PROGRAMS[G.case["prog"]]) if l.strip()) + "\n")) \
+            if G.case["prog"] in ("alone", "comment", "indented") else want
+        return fin(got in (want, want_alt))
+    return fin(got == want)
+
+
 def cases(tier: str, seed: int) -> List[Case]:
     out: List[Case] = []
     quick = tier == "quick"
+    for prog in PROGRAMS:
+        out.append(Case("h16_replace", f"replace:{prog}", {"prog": prog}, timeout=120, twin=True, vacuous_ok=True))
     for n in range(1, (5 if quick else 6) + 1):
         for order in ("asc", "desc"):
             out.append(Case("h16_apply", f"apply:{n}:{order}", {"n": n, "order": order}, timeout=120 if quick else 400))
